@@ -61,6 +61,8 @@ MUTANTS = [
     # ---- C08
     ("C08", "detect", "specs/openapi/_cache.py", "            self._id_to_operation[operation_id] = idx", "            self._id_to_operation[operation_id] = idx + 1", "operationId index off by one"),
     ("C08", "detect", "specs/openapi/_cache.py", "        self._traversal_key_to_operation[traversal_key] = idx\n", "        self._traversal_key_to_operation = {traversal_key: idx}\n", "insert drops the other traversal keys"),
+    ("C08", "detect", "specs/openapi/schemas.py", "                        statistic.operations.total += 1\n                        is_selected = not should_skip(path, method, definition)", "                        is_selected = not should_skip(path, method, definition)\n                        if is_selected:\n                            statistic.operations.total += 1", "total counts only the selected operations"),
+    ("C08", "detect", "specs/openapi/schemas.py", "                    for method, entry in path_item.items():\n                        if method not in HTTP_METHODS:\n                            continue\n                        try:\n                            resolved = resolve_operation(entry)", "                    for method, entry in path_item.items():\n                        if method not in HTTP_METHODS:\n                            break\n                        try:\n                            resolved = resolve_operation(entry)", "a non-method key ends the enumeration of the path item"),
     # ---- C09
     ("C09", "detect", "core/curl.py", "    if not verify:", "    if verify:", "--insecure inverted"),
     ("C09", "detect", "core/curl.py", "if key not in known_generated_headers and key in get_excluded_headers():", "if key in get_excluded_headers():", "generated headers dropped from the command"),
